@@ -65,6 +65,12 @@ P = {
  "C17": ("algebraic laws of the byte-level function on the grammar, via a proved stem-level bridge",
          "Theorems (Props/C17.lean): head, nodup, local, closed (permutation) for every LRU of the property's grammar, incl. path stems containing "
          "'s:http' / 'h:'; the byte-level replace/split code equals the stem-level specification."),
+ "C18": ("open-time decision logic on replayed write-log prefixes; per-write heap order in progress",
+         "Theorems (Props/C18.lean): exactly torn appends are refused, with the library's own error; in-place rewrites cannot be torn; a cut on "
+         "a write boundary opens to exactly the replayed prefix. Every request is increasing in the heap order (Proofs/LeOps: step_le, prefix_le), "
+         "so a state cut at a request boundary reports only pages/links the completed history reports; the lift to single writes is in progress. "
+         "The tie rebuilds the real files for every cut of the real write log (block and byte granularity), reopens them with the real code and "
+         "runs all observers. Assumed, not exhibited: a crash leaves a prefix of the program-ordered writes (no OS reordering)."),
  "C19": ("chunk arithmetic for every length + allocation lemmas; whole-history sum in progress",
          "Theorems (Props/C19.lean): ceil(len/n) chunks, lossless; a node takes exactly blocksFor(stem) blocks; n link ends take n stubs and no trie block."),
  "C20": ("bounded heap keeps the k largest keys (invariant over the fold)",
@@ -73,7 +79,6 @@ P = {
 }
 NOT_YET = {
  "C16": "model of the four generators as explicit state machines (Co.lean) and the scheduling harness are being built in this session; not claimed until the check exists",
- "C18": "write-log replay/cut model and the crash-cut harness are being built in this session; not claimed until the check exists",
 }
 
 def main():
